@@ -49,6 +49,10 @@
 
 #include <mpi.h>
 
+#include <algorithm>
+#include <cmath>
+#include <limits>
+
 #include <fcntl.h>
 #include <sys/mman.h>
 #include <sys/stat.h>
@@ -252,11 +256,13 @@ static void makePhase(Phase& P, Rng& rng, unsigned np, unsigned maxT, uint32_t m
       for (unsigned g = 0; g < (P.twoTag ? 2u : 1u); ++g)
         for (unsigned t = 0; t < P.T; ++t) {
           uint32_t c = 0;
-          if (on && !rng.chance(1, 6)) {
+          if (on && !rng.chance(1, 8)) {
             uint32_t lim = perStreamCap;
             if (bigOne && s == bigS && d == bigD && P.sizeClass != LARGE && P.sizeClass != MEDIUM)
               lim = std::max<uint32_t>(1, cap / (P.T * (P.twoTag ? 2 : 1)));
-            c = rng.chance(1, 5) ? 1 + (uint32_t)rng.below(3) : logUniform(rng, 1, lim);
+            unsigned how = (unsigned)rng.below(20);
+            c = how < 3 ? 1 + (uint32_t)rng.below(3) : how < 12 ? logUniform(rng, 1, lim) : lim / 2 + (uint32_t)rng.below(lim / 2 + 1);
+            c = std::max<uint32_t>(c, 1);
             if (P.sizeClass == LARGE && t > 0)
               c = std::min<uint32_t>(c, 8);
           }
@@ -558,6 +564,7 @@ int main(int argc, char** argv) {
   const unsigned maxT     = std::min<unsigned>({(unsigned)H.paramInt("maxthreads", 2), MAXS, poolMax});
   const uint32_t maxCount = (uint32_t)H.paramInt("maxcount", H.thorough ? 10000 : 2000);
   const double patience   = (double)H.paramInt("patience", 40);
+  const long selftest     = H.paramInt("selftest", 0);
   static const char* MODES[] = {"mixed", "overlap", "two-tag", "multi-thread", "large"};
   uint64_t phaseSerial = 0, barrierSerial = 0;
   std::vector<std::vector<uint8_t>> scratch(MAXS + MAXR + 1);
@@ -581,7 +588,6 @@ int main(int argc, char** argv) {
     H.hangKey = key("hang");
     H.begin(k, J().kv("component", COMP).kv("mode", MODES[mode]).kv("hosts", g_np).kv("phases", nph).kv("maxT", maxT)
                    .kv("start_tag", gr::evilPhase).kv("wrap", wrap).str());
-    Counters before;
     uint64_t c0sent = g_cnt.sent, c0recvd = g_cnt.recvd, c0bs = g_cnt.bytesSent, c0br = g_cnt.bytesRecvd, c0tiny = g_cnt.tiny,
              c0th = g_cnt.thresh, c0big = g_cnt.big, c0self = g_cnt.selfMsgs, c0hd = g_cnt.hdrDeser;
     auto extra0      = net.reportExtraNamed();
@@ -639,9 +645,9 @@ int main(int argc, char** argv) {
           g_cnt.emptyPolls.fetch_add(1, std::memory_order_relaxed);
           if ((idle & 63) == 0)
             sched_yield();
+          if (idle > 50000 && (idle & 15) == 0)
+            usleep(100);
           if ((idle & 1023) == 0) {
-            if (idle > 20000)
-              usleep(200);
             if (g_shm->abortFlag.load())
               for (;;)
                 usleep(100000); // watcher ends the process
@@ -725,6 +731,8 @@ int main(int argc, char** argv) {
                 unsigned d = s / 2, g = s % 2;
                 uint32_t seq = nextSeq[s]++;
                 genMessage(P, g_me, d, g, tid, seq, msg);
+                if (selftest == 1 && P.serial == 2 && tid == 0 && seq == 0)
+                  continue; // harness self-test only (never set by the spec): a planned message is not sent
                 if (msg.size() >= sizeof(Hdr) && (seq & 1)) {
                   Hdr h;
                   memcpy(&h, msg.data(), sizeof h);
@@ -893,7 +901,7 @@ int main(int argc, char** argv) {
               .kv("mt_recv_phases", mrPhases).kv("two_tag_phases", twoTagPhases).kv("tag_wrap_cases", (int)wrap)
               .kv("network_buffers", sum[10]).kv("buffers_sent_over_threshold", sum[11]).kv("buffers_sent_on_timeout", sum[12])
               .kv("buffers_sent_on_flush", sum[13]).kv("aggregating_cases", (int)aggregated).kv("headers_deserialised", sum[14])
-              .kv("net_cases_np" + std::to_string(g_np), 1).str());
+              .kv(("net_cases_np" + std::to_string(g_np)).c_str(), 1).str());
   }
   // leave the tag where every host agrees (teardown of the distributed statistics uses it)
   MPI_Barrier(MPI_COMM_WORLD);
